@@ -1,5 +1,6 @@
 """Anchors: how the roles used by the rules are found in the facts (by template-erased
 qualified name).  A missing anchor is AnalysisBroken (exit 2), never a verdict."""
+import re
 from .facts import erase, AnalysisBroken
 
 NS = "trompeloeil::"
@@ -350,3 +351,46 @@ def process_wide_state(ctx, tu, rule, roles):
                    "thread gets its own copy, so what one thread installs is not what another thread's calls use"
                    % (tls[0][1], fn.qe))
     return n
+
+
+def died_field(tu):
+    """the monitor's 'the object has died' flag, by role: the only boolean (plain or atomic) member of the lifetime
+    monitor.  Falls back to the reference name."""
+    r = getattr(tu, "_died_field", None)
+    if r is not None:
+        return r
+    r = NS + "lifetime_monitor::died"
+    for c in tu.cls_by_qe.get(NS + "lifetime_monitor", [])[:1]:
+        hit = [f for f in c.get("fields", ()) if re.match(r"^(bool|_Bool|(std::|trompeloeil::)?atomic<bool>)$", f.get("t", "").strip())]
+        if len(hit) == 1:
+            r = erase(hit[0]["q"])
+    try:
+        tu._died_field = r
+    except Exception:
+        pass
+    return r
+
+
+def cond_atom(fn, bid):
+    """(atom tree, polarity) of the branch condition of block `bid`.  A named local for the tested condition
+    (`bool const alive = !died; if (alive)`) is looked through only when its declaration is in the same block with no
+    call between it and the branch (nothing could have changed the tested state in between)."""
+    b = fn.blocks[bid]
+    cond = (b.get("term") or {}).get("cond")
+    if cond is None:
+        return None, True
+    t, pol = cond, True
+    while isinstance(t, list) and t and t[0] == "u" and t[1] == "!":
+        pol = not pol
+        t = t[2]
+    if isinstance(t, list) and t[:1] == ["var"]:
+        evs = b.get("ev") or []
+        di = [i for i, e in enumerate(evs) if e["e"] == "decl" and e.get("var") == t[1]]
+        if len(di) == 1 and not any(e["e"] in ("call", "ctor", "assign", "incdec", "new", "delete") for e in evs[di[0] + 1:]):
+            init = strip_casts(evs[di[0]].get("init"))
+            while isinstance(init, list) and init and init[0] == "u" and init[1] == "!":
+                pol = not pol
+                init = init[2]
+            if init is not None:
+                t = init
+    return t, pol
